@@ -254,6 +254,13 @@ type node struct {
 type sliceCycle []sliceCycle
 type anySlice []any
 
+type arrSliceCycle [][1]arrSliceCycle
+
+type arrKids struct {
+	V    int
+	Kids [][2]*arrKids
+}
+
 func cycleValue(shape int) (string, any) {
 	switch shape {
 	case 0:
@@ -321,6 +328,18 @@ func cycleValue(shape int) (string, any) {
 		n := &jtypes.LNode{V: 1}
 		n.Next = n
 		return "non-empty-interface-in-any-slice", []any{map[string]any{"n": n}}
+	case 16:
+		s := make([][1]any, 1)
+		s[0][0] = s
+		return "slice-of-arrays-of-any-self", s
+	case 17:
+		a := make(arrSliceCycle, 1)
+		a[0][0] = a
+		return "recursive-slice-of-arrays-type", a
+	case 18:
+		n := &arrKids{V: 1}
+		n.Kids = [][2]*arrKids{{n, nil}}
+		return "slice-of-arrays-of-pointers", n
 	default:
 		type w struct{ P **node }
 		n := &node{}
@@ -329,7 +348,7 @@ func cycleValue(shape int) (string, any) {
 	}
 }
 
-const nCycleShapes = 17
+const nCycleShapes = 20
 
 func runCycles(c *core.Case) {
 	shape := c.Index % nCycleShapes
@@ -479,7 +498,7 @@ func runDeepDecode(c *core.Case) {
 func init() {
 	core.Register(&core.Monitor{
 		Prop:    "C06",
-		Rule:    "decode-fuzz: arbitrary bytes, token soups, truncated and mutated documents into guarded targets (struct{Pre [4]uint64; V T; Post [4]uint64} with canary words) of generated and library types, zero or pre-filled, through Unmarshal, Parse with a random 9-bit flag word, Decoder.Decode (chunked reader ending in an error; UseNumber/DisallowUnknownFields/ZeroCopy), Valid, Tokenizer and invalid targets. encode-values: generated values incl. pointer-shaped corners by value, by pointer, as map value, in a one-element array and inside interfaces through Marshal/Append/Encoder/MarshalIndent. cycles: 17 cyclic shapes through pointers, slices, maps, empty and non-empty interfaces, recursive named slice/map/array types must return an error. deep-encode / deep-decode: nesting of 10 .. 10^6 levels (3*10^6 for documents) in 5 shapes each. A recovered panic, a canary change, a process death attributed by the journal (SIGSEGV, stack overflow, checkptr, ASan report, out of memory) or a CPU-time budget overrun confirmed in a fresh process is a violation; no functional comparison. Distinct by (type, document) / shape.",
+		Rule:    "decode-fuzz: arbitrary bytes, token soups, truncated and mutated documents into guarded targets (struct{Pre [4]uint64; V T; Post [4]uint64} with canary words) of generated and library types, zero or pre-filled, through Unmarshal, Parse with a random 9-bit flag word, Decoder.Decode (chunked reader ending in an error; UseNumber/DisallowUnknownFields/ZeroCopy), Valid, Tokenizer and invalid targets. encode-values: generated values incl. pointer-shaped corners by value, by pointer, as map value, in a one-element array and inside interfaces through Marshal/Append/Encoder/MarshalIndent. cycles: 20 cyclic shapes through pointers, slices, maps, empty and non-empty interfaces, recursive named slice/map/array types must return an error. deep-encode / deep-decode: nesting of 10 .. 10^6 levels (3*10^6 for documents) in 5 shapes each. A recovered panic, a canary change, a process death attributed by the journal (SIGSEGV, stack overflow, checkptr, ASan report, out of memory) or a CPU-time budget overrun confirmed in a fresh process is a violation; no functional comparison. Distinct by (type, document) / shape.",
 		Trusted: []string{"the supervisor's crash attribution (journal + stderr signature)", "Go race detector's checkptr and AddressSanitizer for the unsafe paths", "process CPU-time clock for bounded progress"},
 		Subs: []core.Sub{
 			{Name: "decode-fuzz", N: core.Const(24000, 1000000), Run: runDecodeFuzz},
